@@ -7,9 +7,9 @@ run).  The theorems hold for ALL programs (any length, asyncs nested to any dept
 (`cfg`: queue / inline, any rejection point) and ALL orders of client events (`evs`: attach, fulfil, let an executor run
 a job, start, drop, get — in any order, including ill-timed ones, which `mech` ignores like the C++ type system does).
 
-The code as it is violates the property on programs containing defect D10 (an inner Task with a Run-type / PromiseCore
-head returned from a continuation): `mech_terminal_eq_spec_violated_witness`.  Under the explicit decidable guard
-`d10FreeProg p` the property is proved.
+Defect D10 (an inner Task with a Run-type / PromiseCore head — Schedule / LazyContract — returned from a continuation was
+entered through Here() and crashed) was exhibited by this machinery and repaired in /repo by fix 4f7ebfc; since then the
+theorems are unconditional.  See the comment at the end of the file.
 -/
 import YaclibModel.Proofs.PipelineSpec
 import YaclibModel.Extracted.Kernels
@@ -22,22 +22,22 @@ variable (cfg : Cfg) (evs : List Event) (p : Prog) (h : Handle)
 
 /-- the client-level invariant: after ANY list of client events the state of the mechanism denotes the sequential
     reading of the program written so far (Proofs/PipelineInv.lean `Inv`) -/
-theorem mech_denotes_spec (hc : client evs = some (p, h)) (hd : d10FreeProg p = true) :
+theorem mech_denotes_spec (hc : client evs = some (p, h)) :
     Inv cfg (run cfg {} evs) p h := by
   have := inv_run cfg evs
   rw [hc] at this
-  exact this hd
+  exact this
 
 /-- **final Result and invocation list = sequential reading**, in every state in which the pipeline has come to its
     end: a ready Future is held (`future`), or nothing is left (`gone`: detached, dropped or consumed by Get) -/
-theorem mech_terminal_eq_spec (hc : client evs = some (p, h)) (hd : d10FreeProg p = true) :
+theorem mech_terminal_eq_spec (hc : client evs = some (p, h)) :
     (∀ r inh, (run cfg {} evs).ctl = .future r inh →
       r = (spec cfg p).r ∧ (run cfg {} evs).g.invoked = (spec cfg p).invoked ∧
       (run cfg {} evs).g.subs = (spec cfg p).subs) ∧
     ((run cfg {} evs).ctl = .gone →
       (run cfg {} evs).result = some (spec cfg p).r ∧ (run cfg {} evs).g.invoked = (spec cfg p).invoked ∧
       (run cfg {} evs).g.subs = (spec cfg p).subs) := by
-  have hi := mech_denotes_spec cfg evs p h hc hd
+  have hi := mech_denotes_spec cfg evs p h hc
   obtain ⟨_, hi⟩ := hi
   constructor
   · intro r inh hctl
@@ -49,15 +49,15 @@ theorem mech_terminal_eq_spec (hc : client evs = some (p, h)) (hd : d10FreeProg 
     obtain ⟨_, _, r, inh, hr, hs⟩ := hi
     simp [hs, hr]
 
-/-- nothing crashes (outside D10) -/
-theorem no_crash (hc : client evs = some (p, h)) (hd : d10FreeProg p = true) : (run cfg {} evs).crashed = false :=
-  (mech_denotes_spec cfg evs p h hc hd).1
+/-- nothing crashes -/
+theorem no_crash (hc : client evs = some (p, h)) : (run cfg {} evs).crashed = false :=
+  (mech_denotes_spec cfg evs p h hc).1
 
 /-- in EVERY reachable state what has been invoked so far is a prefix of what the sequential reading invokes -/
-theorem invoked_prefix_spec (hc : client evs = some (p, h)) (hd : d10FreeProg p = true) :
+theorem invoked_prefix_spec (hc : client evs = some (p, h)) :
     ∃ x, (spec cfg p).invoked = (run cfg {} evs).g.invoked ++ x ∨
       ((run cfg {} evs).g.invoked = [] ∧ x = []) := by
-  have hi := mech_denotes_spec cfg evs p h hc hd
+  have hi := mech_denotes_spec cfg evs p h hc
   obtain ⟨_, hi⟩ := hi
   cases hctl : (run cfg {} evs).ctl with
   | idle => rw [hctl] at hi; exact hi.elim
@@ -73,9 +73,9 @@ theorem invoked_prefix_spec (hc : client evs = some (p, h)) (hd : d10FreeProg p 
     exact ⟨[], Or.inl (by simp [hs])⟩
 
 /-- steps are invoked in pipeline order (a sub-sequence of the identifiers in program order) … -/
-theorem invoked_order (hc : client evs = some (p, h)) (hd : d10FreeProg p = true) :
+theorem invoked_order (hc : client evs = some (p, h)) :
     (run cfg {} evs).g.invoked.Sublist p.ids := by
-  obtain ⟨x, hx⟩ := invoked_prefix_spec cfg evs p h hc hd
+  obtain ⟨x, hx⟩ := invoked_prefix_spec cfg evs p h hc
   cases hx with
   | inl hx =>
     have h1 := spec_invoked_sublist cfg p
@@ -84,16 +84,16 @@ theorem invoked_order (hc : client evs = some (p, h)) (hd : d10FreeProg p = true
   | inr hx => rw [hx.1]; exact List.nil_sublist _
 
 /-- … and every step at most once, in every reachable state (confluence: no event order can run a callback twice) -/
-theorem invoked_nodup (hc : client evs = some (p, h)) (hd : d10FreeProg p = true) (hids : p.ids.Nodup) :
+theorem invoked_nodup (hc : client evs = some (p, h)) (hids : p.ids.Nodup) :
     (run cfg {} evs).g.invoked.Nodup :=
-  List.Nodup.sublist (invoked_order cfg evs p h hc hd) hids
+  List.Nodup.sublist (invoked_order cfg evs p h hc) hids
 
 /-- confluence: two histories of the same program that both end with a ready future hold the same Result,
     whatever the order in which promises were fulfilled and executors drained -/
 theorem confluence (evs' : List Event) (h' : Handle) (hc : client evs = some (p, h)) (hc' : client evs' = some (p, h'))
-    (hd : d10FreeProg p = true) (r r' : R) (inh inh' : Exec)
+    (r r' : R) (inh inh' : Exec)
     (h1 : (run cfg {} evs).ctl = .future r inh) (h2 : (run cfg {} evs').ctl = .future r' inh') : r = r' := by
-  rw [((mech_terminal_eq_spec cfg evs p h hc hd).1 r inh h1).1, ((mech_terminal_eq_spec cfg evs' p h' hc' hd).1 r' inh' h2).1]
+  rw [((mech_terminal_eq_spec cfg evs p h hc).1 r inh h1).1, ((mech_terminal_eq_spec cfg evs' p h' hc').1 r' inh' h2).1]
 
 /-! ### the clauses of the property, about one step of the sequential reading
     (`specCall cfg s input own subs inv`: step `s` is offered `input`) and about the extracted routing -/
@@ -147,7 +147,20 @@ theorem async_flattened (src : Src) (lazy : Bool) (steps : List Step) (hr : runs
   exact ⟨rfl, rfl⟩
 end clauses
 
-/-! ### defect D10: the code as it is violates the property -/
+/-! ### defect D10 (fixed: /repo 4f7ebfc)
+
+   Until 4f7ebfc a continuation returning a Task whose head is a Schedule() / LazyContract() core crashed: CallResolveAsync
+   enters the head through Here(); Core::Impl took the IsRun branch to async_done() with `_self.caller == nullptr`
+   (PromiseCore: UniqueCore::Here read a Result out of the outer core's Callback bytes).  This file then contained
+
+     theorem mech_terminal_eq_spec_violated_witness :
+         (progOf d10Events).map (fun p => (spec cfgQ p).r) = some (.val 7) ∧ (run cfgQ {} d10Events).crashed = true
+
+   and the theorems above carried the guard "no inner Task with a Run-type head" (`d10FreeProg`).  Replay (regression
+   input corpus/pipe/d10_schedule_returned.txt):
+       in 1 src schedule 2 V on:e1 val:7  /  src ready v1  /  then 1 V inline async:1        (segmentation fault)
+   Since the fix the head is Submitted to ITS executor (extracted: `Dispatch.implRunEntry`, `Dispatch.promiseCoreHere`),
+   shows in Submits / placement / Called-xor-Dropped, and a stopped executor rejects it (StopError path). -/
 
 def cfgQ : Cfg := fun _ => ⟨true, none⟩
 
@@ -156,17 +169,21 @@ def d10Events : List Event :=
   [.src (.ready (.val 1)) false none,
    .attach (.mk 1 .val .inline (.async .unit true [.mk 2 .val (.on (.user 1)) (.val 7)]))]
 
-/-- the sequential reading gives 7; the mechanism (like the implementation: segmentation fault) crashes -/
-theorem mech_terminal_eq_spec_violated_witness :
-    (progOf d10Events).map (fun p => (spec cfgQ p).r) = some (.val 7) ∧
-    (progOf d10Events).map d10FreeProg = some false ∧
-    (run cfgQ {} d10Events).crashed = true := by decide
+/-- the former D10 witness now behaves: the inner head waits in e1's queue (one Submit), runs when e1 runs it, 7 comes out -/
+example : (run cfgQ {} d10Events).crashed = false ∧ (run cfgQ {} d10Events).g.subs = [1] ∧
+    (run cfgQ {} (d10Events ++ [.call 1])).result = some (.val 7) ∧
+    (run cfgQ {} (d10Events ++ [.call 1])).g.ran.map (fun x => (x.id, x.ctx)) = [(1, none), (2, some 1)] ∧
+    (run cfgQ {} (d10Events ++ [.call 1])).g.jobs = [(0, true)] := by decide +kernel
 
-/-- the same inner Task built by MakeTask works (ReadyCore::Here) -/
-example :
-    (run cfgQ {} [.src (.ready (.val 1)) false none,
-      .attach (.mk 1 .val .inline (.async (.ready (.val 10)) true [.mk 2 .val .inline (.val 1)]))]).result
-      = some (.val 11) := by decide
+/-- … and with e1 stopped the head is Dropped: its value callback is skipped, the outer step completes with StopError -/
+example : (run (fun _ => ⟨true, some 0⟩) {} d10Events).result = some (.err 0) ∧
+    (run (fun _ => ⟨true, some 0⟩) {} d10Events).g.invoked = [1] ∧
+    (run (fun _ => ⟨true, some 0⟩) {} d10Events).g.jobs = [(0, false)] := by decide +kernel
+
+/-- LazyContract head: the functor receives its promise when the head is started through Here -/
+example : (run cfgQ {} [.src (.ready (.val 1)) false none,
+      .attach (.mk 1 .val .inline (.async (.promiseFn .inl 0 (.set (.val 4))) true [])), .set 0]).result = some (.val 4) := by
+  decide +kernel
 
 /-! ### non-vacuity: a concrete pipeline with every kind of routing, late fulfilment, two executors, rejection -/
 
